@@ -143,9 +143,9 @@ func c31ParseOp(s string) (c31Op, error) {
 }
 
 // c31Ops lists the operations enabled in st, in a fixed order.
-func c31Ops(st *c31State, maxCost, maxDepth int) []c31Op {
+func c31Ops(st *c31State, maxCost, maxDepth int, ops []c31Op) []c31Op {
 	top := st.f[st.n-1]
-	ops := make([]c31Op, 0, 32)
+	ops = ops[:0]
 	for e := 0; e <= maxCost; e++ {
 		for s := 0; s <= maxCost; s++ {
 			if e+s > 0 {
@@ -175,7 +175,15 @@ func c31Ops(st *c31State, maxCost, maxDepth int) []c31Op {
 // c31Check validates one frame after a transition: range (no wrapped field),
 // side-by-side model equality, and the conservation identities of the property
 // statement evaluated on the implementation's own fields.
-func c31Check(l c31Live, T int64, what string) error {
+func c31Check(l c31Live, T int64, whatf func() string) error {
+	if err := c31Check0(l, T); err != nil {
+		return fmt.Errorf("%s: %v", whatf(), err)
+	}
+	return nil
+}
+
+func c31Check0(l c31Live, T int64) error {
+	const what = "frame"
 	g, m := l.g, l.m
 	ut := uint64(T)
 	if g.ExecutionGas > ut || g.StateGas > ut || g.UsedExecutionGas > ut || g.Spilled > ut || g.UsedStateGas > T || g.UsedStateGas < -T {
@@ -212,7 +220,15 @@ func c31Check(l c31Live, T int64, what string) error {
 	return nil
 }
 
-func c31CheckLeft(L GasBudget, ml c31Left, T int64, what string) error {
+func c31CheckLeft(L GasBudget, ml c31Left, T int64, whatf func() string) error {
+	if err := c31CheckLeft0(L, ml, T); err != nil {
+		return fmt.Errorf("%s: %v", whatf(), err)
+	}
+	return nil
+}
+
+func c31CheckLeft0(L GasBudget, ml c31Left, T int64) error {
+	const what = "leftover"
 	ut := uint64(T)
 	if L.ExecutionGas > ut || L.StateGas > ut || L.UsedExecutionGas > ut || L.Spilled > ut || L.UsedStateGas > T || L.UsedStateGas < -T {
 		return fmt.Errorf("%s: leftover field outside [0,total=%d]: %v", what, T, L)
@@ -223,6 +239,25 @@ func c31CheckLeft(L GasBudget, ml c31Left, T int64, what string) error {
 			what, L, ml.e, ml.s, ml.burnt, ml.stRes+ml.stExec, ml.stExec)
 	}
 	return nil
+}
+
+var (
+	c31TxOutcome     = [3]string{"tx_ExitSuccess", "tx_ExitRevert", "tx_ExitHalt"}
+	c31AbsorbOutcome = [12]string{
+		"absorb_ExitSuccess", "absorb_ExitSuccess_negative_used_state", "absorb_ExitSuccess_with_spill", "absorb_ExitSuccess_with_spill_negative_used_state",
+		"absorb_ExitRevert", "absorb_ExitRevert_negative_used_state", "absorb_ExitRevert_with_spill", "absorb_ExitRevert_with_spill_negative_used_state",
+		"absorb_ExitHalt", "absorb_ExitHalt_negative_used_state", "absorb_ExitHalt_with_spill", "absorb_ExitHalt_with_spill_negative_used_state",
+	}
+)
+
+// c31SafeStep is c31Step with panics converted into errors.
+func c31SafeStep(st c31State, op c31Op) (res c31Result, err error) {
+	defer func() {
+		if p := recover(); p != nil {
+			err = fmt.Errorf("panic: %v", p)
+		}
+	}()
+	return c31Step(st, op)
 }
 
 type c31Result struct {
@@ -317,8 +352,15 @@ func c31Step(st c31State, op c31Op) (res c31Result, err error) {
 		default:
 			res.outcome = "refund_split"
 		}
-		if top.m.stRes+top.m.stExec < 0 {
-			res.outcome += "_foreign" // refunds a charge made by another frame: UsedStateGas < 0
+		if top.m.stRes+top.m.stExec < 0 { // refunds a charge made by another frame: UsedStateGas < 0
+			switch res.outcome {
+			case "refund_repays_spill":
+				res.outcome = "refund_repays_spill_foreign"
+			case "refund_to_reservoir":
+				res.outcome = "refund_to_reservoir_foreign"
+			default:
+				res.outcome = "refund_split_foreign"
+			}
 		}
 	case c31Drain:
 		top.g.DrainExecution()
@@ -355,12 +397,12 @@ func c31Step(st c31State, op c31Op) (res c31Result, err error) {
 		top.m.fwd = x
 		top.m.fwdS = top.m.s
 		top.m.s = 0
-		if err := c31Check(top, T, "caller after "+op.String()); err != nil {
+		if err := c31Check(top, T, func() string { return "caller after " + op.String() }); err != nil {
 			return res, err
 		}
 		res.next.f[n-1] = c31Pack(top)
 		cl := c31Live{g: child, m: c31Model{entE: x, entS: top.m.fwdS, e: x, s: top.m.fwdS}}
-		if err := c31Check(cl, T, "child after "+op.String()); err != nil {
+		if err := c31Check(cl, T, func() string { return "child after " + op.String() }); err != nil {
 			return res, err
 		}
 		res.next.f[n] = c31Pack(cl)
@@ -404,7 +446,7 @@ func c31Step(st c31State, op c31Op) (res c31Result, err error) {
 				return res, fmt.Errorf("Exit(other error) = %v, ExitHalt = %v", d, L)
 			}
 		}
-		if err := c31CheckLeft(L, ml, T, name+" of "+g.String()); err != nil {
+		if err := c31CheckLeft(L, ml, T, func() string { return name + " of " + g.String() }); err != nil {
 			return res, err
 		}
 		E, S, UE = int64(L.ExecutionGas), int64(L.StateGas), int64(L.UsedExecutionGas)
@@ -429,7 +471,7 @@ func c31Step(st c31State, op c31Op) (res c31Result, err error) {
 				return res, fmt.Errorf("%s at transaction level: Used(initial)=%d, accumulators <%d,%d>", name, used, UE, L.UsedStateGas)
 			}
 			res.terminal = true
-			res.outcome = "tx_" + name
+			res.outcome = c31TxOutcome[op.kind-c31ExitOK]
 			return res, nil
 		}
 		par := c31Unpack(st.f[n-2])
@@ -447,22 +489,23 @@ func c31Step(st c31State, op c31Op) (res c31Result, err error) {
 		par.m.fwd, par.m.fwdS = 0, 0
 		par.m.stRes += ml.stRes
 		par.m.stExec += ml.stExec
-		if err := c31Check(par, T, "caller after "+name+"+Absorb("+L.String()+")"); err != nil {
+		if err := c31Check(par, T, func() string { return "caller after " + name + "+Absorb(" + L.String() + ")" }); err != nil {
 			return res, err
 		}
 		res.next.f[n-1] = c31Frame{}
 		res.next.f[n-2] = c31Pack(par)
 		res.next.n = int8(n - 1)
-		res.outcome = "absorb_" + name
+		oi := int(op.kind-c31ExitOK) * 4
 		if ml.stExec > 0 {
-			res.outcome += "_with_spill"
+			oi += 2
 		}
 		if ml.stRes+ml.stExec < 0 {
-			res.outcome += "_negative_used_state"
+			oi++
 		}
+		res.outcome = c31AbsorbOutcome[oi]
 		return res, nil
 	}
-	if err := c31Check(top, T, "after "+op.String()); err != nil {
+	if err := c31Check(top, T, func() string { return "after " + op.String() }); err != nil {
 		return res, err
 	}
 	if n == 1 {
@@ -694,12 +737,13 @@ func c31BFS(r *mc.R, tag string, maxInit, maxCost, maxDepth int) {
 				local := map[c31State]struct{}{}
 				oc := map[string]int64{}
 				var nt int64
+				opbuf := make([]c31Op, 0, 40)
 				for i := a; i < b; i++ {
 					st := states[i]
-					for _, op := range c31Ops(&st, maxCost, maxDepth) {
+					opbuf = c31Ops(&st, maxCost, maxDepth, opbuf)
+					for _, op := range opbuf {
 						nt++
-						var res c31Result
-						err := mc.Safely(func() (e error) { res, e = c31Step(st, op); return })
+						res, err := c31SafeStep(st, op)
 						if err != nil {
 							fails[ci] = append(fails[ci], fail{int32(i), op})
 							continue
